@@ -85,20 +85,21 @@ theorem lookup_pxKVs (p : TPath) (skip : Bool) {k : String} (hk : isExtKey k = f
 def CfgLink (P : String → Prop) (kvs : KVs) : Prop :=
   (∀ v, Val.lookup "content" kvs = some v → AllStr P v) ∨ (∃ e, Val.lookup "environment" kvs = some (.str e) ∧ e ≠ "")
 
-theorem CfgLink_resolveObj {P : String → Prop} (env : Env) {kvs : KVs} (h : AllStrKV P kvs)
-    (hne : Val.lookup "environment" kvs ≠ some (.str "")) :
+theorem CfgLink_resolveObj {P : String → Prop} (env : Env) {kvs : KVs} (h : AllStrKV P kvs) :
     ∀ kvs', resolveObj "content" env (.map kvs) = .map kvs' → CfgLink P kvs' := by
   intro kvs' hr
   simp only [resolveObj] at hr
   split at hr
   · rename_i e he
     split at hr
-    · cases hr
-      right
-      refine ⟨e, ?_, ?_⟩
-      · rw [lookup_insert_ne (by decide)]; exact he
-      · intro h0; subst h0; exact hne he
     · cases hr; left; intro v hl; exact AllStrKV_lookup h hl
+    · rename_i hne
+      split at hr
+      · cases hr
+        right
+        refine ⟨e, ?_, hne⟩
+        rw [lookup_insert_ne (by decide)]; exact he
+      · cases hr; left; intro v hl; exact AllStrKV_lookup h hl
   · cases hr; left; intro v hl; exact AllStrKV_lookup h hl
 
 theorem CfgLink_setNameKVs {P : String → Prop} {pname n : String} {kvs : KVs} (h : CfgLink P kvs) : CfgLink P (setNameKVs pname n kvs) := by
